@@ -298,7 +298,7 @@ func init() {
 			if tier == "thorough" {
 				return 2000000
 			}
-			return 30000
+			return 100000
 		},
 		WallCap: func(tier string) float64 {
 			if tier == "thorough" {
